@@ -306,7 +306,7 @@ def pick_id(rng, maps):
         if m is None: continue
         i, e, r = m
         for b in (i, e): c += [max(b - 1, 0), b, b + max(r, 1) - 1, min(b + r, U32 - 1)]
-    return rng.choice(c)
+    return min(rng.choice(c), U32 - 1)
 
 def gen_mapping(rng, wf=True):
     r = rng.choice([1, 2, 1000, 65536])
